@@ -4,12 +4,13 @@ go 1.20
 
 require (
 	github.com/anishathalye/porcupine v1.3.0
+	github.com/expr-lang/expr v1.16.9
 	github.com/go-kid/ioc v0.0.0
+	github.com/go-playground/validator/v10 v10.22.0
 	gopkg.in/yaml.v3 v3.0.1
 )
 
 require (
-	github.com/expr-lang/expr v1.16.9 // indirect
 	github.com/fsnotify/fsnotify v1.7.0 // indirect
 	github.com/gabriel-vasile/mimetype v1.4.3 // indirect
 	github.com/go-kid/properties v0.0.6 // indirect
@@ -17,7 +18,6 @@ require (
 	github.com/go-kid/strings2 v0.0.1 // indirect
 	github.com/go-playground/locales v0.14.1 // indirect
 	github.com/go-playground/universal-translator v0.18.1 // indirect
-	github.com/go-playground/validator/v10 v10.22.0 // indirect
 	github.com/hashicorp/hcl v1.0.0 // indirect
 	github.com/leodido/go-urn v1.4.0 // indirect
 	github.com/magiconair/properties v1.8.7 // indirect
